@@ -291,6 +291,32 @@ S["ents_event_delays"] = dict(
     conns=[CE("U", "e", "V", "e", "eo", "ti"), CE("U", "f", "V", "f", "eo", "ti", shift=2),
            CE("V", "f", "W", "e", "eo", "ti"), CE("V", "e", "W", "e", "eo", "ti2", shift=1)])
 
+# two sibling groups with a same-time loop each; the first loop hands over to the second one
+# when it has settled (only then its second entity emits): neither loop reaches max_loop, the
+# sum of their lengths does
+for _nm, _grp in (("sibling_loops", {"g": None, "g2": None}),
+                  ("sibling_loops_nested", {"o": None, "g": "o", "g2": "o"})):
+    S[_nm] = dict(
+        until=1, max_loop=5, groups=_grp, max_budget=0,
+        sims=[E("A", ents=2, group="g", init_event=0, emit=[0, 0, 0, 0], emit_e=[1, 1, 1, None],
+                emit_f=[None, None, None, 1]),
+              E("B", group="g", emit_default=0),
+              E("Cc", group="g2", emit=[0, 0, 0]), E("D", group="g2", emit_default=0)],
+        conns=[C("A", "B", "eo", "ti"), C("B", "A", "eo", "ti", weak=True),
+               CE("A", "f", "Cc", "e", "eo", "ti"),
+               C("Cc", "D", "eo", "ti"), C("D", "Cc", "eo", "ti", weak=True)])
+# one pair inside a group with a weak and a time-shifted triggering connection (both orders),
+# loop that never settles / settles
+for _nm, _cs in (("loop_weak_and_shift", [C("B", "A", "eo", "ti", weak=True), C("B", "A", "eo", "ti2", shift=1)]),
+                 ("loop_shift_and_weak", [C("B", "A", "eo", "ti2", shift=1), C("B", "A", "eo", "ti", weak=True)])):
+    S[_nm + "_unsettled"] = dict(
+        until=2, max_loop=3, groups=G1, max_budget=0,
+        sims=[E("A", group="g", init_event=0, emit_default=0), E("B", group="g", emit_default=0)],
+        conns=[C("A", "B", "eo", "ti")] + _cs)
+    S[_nm] = dict(
+        until=3, max_loop=4, groups=G1, max_budget=0,
+        sims=[E("A", group="g", init_event=0, emit=[0, 0, None] * 3), E("B", group="g", emit_default=0)],
+        conns=[C("A", "B", "eo", "ti")] + _cs)
 # loops on two levels of nested groups: neither makes max_loop iterations, together they do
 S["loop_two_levels"] = dict(
     until=1, max_loop=3, groups={"g": None, "h": "g"}, max_budget=0,
